@@ -1,20 +1,27 @@
 (* Fault.v -- MODEL for property C11 (I/O failures are never silently dropped).  No proofs here.
 
-   1. MPI error classes and [mpi2nc] = ncmpii_error_mpi2nc (src/drivers/common/error_mpi2nc.c).
+   1. MPI error classes and [mpi2nc] = ncmpii_error_mpi2nc (src/drivers/common/error_mpi2nc.c);
+      tied to the table the translator extracts from that file by Proofs_Fault.mpi2nc_matches_source.
    2. The POLICY LANGUAGE into which tools/tr_iosites.py slices the continuation of a function after a
-      call (an MPI-IO data-transfer call, or a call of a function that may perform one), and its
-      semantics: an abstract interpreter over the `int` locals of the function
-      (mpireturn / err / status / ...), nondeterministic wherever the slice does not determine a
-      condition or a value.  Exactly ONE fault is injected: the marked call; every other MPI call
-      of the continuation succeeds.
-   3. The hand-written propagation table [chains]: through which functions the status of the
-      function containing an I/O site reaches the return value of which API (cross-checked against
-      the generated call graph in Proofs_Fault.v).
+      call (an MPI-IO data-transfer call = I/O site, or a call of a function from which one is
+      reachable = link site), and its semantics: an abstract interpreter over the `int` locals of the
+      function that are relevant for its return value (mpireturn / err / status / ...),
+      nondeterministic wherever the slice does not determine a condition or a value.
+      Exactly ONE fault is injected: the marked call; every other MPI call of the continuation
+      succeeds.  Loops: the set of loop-head states is closed under the loop body by a worklist and
+      the closure is CHECKED (otherwise the outcome is OBad), so the outcomes cover any number of
+      iterations (Proofs_Fault.loop_exec_covers_all_iterations).  Whatever the translator does not
+      recognise is SUnrec, whose outcome OBad is never an error return: fail closed.
+   3. [predict_all]: return values of the API predicted for an observed call stack (correspondence
+      with the fault-injection harness).
+   4. The hand-written propagation table [chains]: through which functions the status of the
+      function containing an I/O site reaches the return value of which API; every hop is checked
+      against the generated link sites (chain_in_graph) and evaluated (chain_reaches_api).
+   5. The specification predicates used by Properties_C11.v (no_silent_drop, ...).
 
-   Assumption made explicit in the semantics (see [refine_ne0]): an `int` local that the code
-   compares with NC_NOERR holds a netCDF status code, and status codes are never positive
-   (every NC_E* constant of pnetcdf.h is negative -- checked for the constants that occur,
-   Proofs_Fault.nc_codes_negative). *)
+   Assumption made explicit in the semantics (see [refine_ne0], [allmin]): an `int` local that the
+   code compares with NC_NOERR holds a netCDF status code, and status codes are never positive
+   (every `#define NC_Exxx (<int>)` of pnetcdf.h is negative: Proofs_Fault.nc_codes_negative). *)
 From Coq Require Import ZArith String List Bool.
 From Pnc Require Import Gen_consts.
 Import ListNotations.
